@@ -33,41 +33,50 @@ type memProxy struct{ M *Mem }
 
 func (p *memProxy) Read(a uint32) byte     { return p.M.Read(a) }
 func (p *memProxy) Write(a uint32, v byte) { p.M.Write(a, v) }
+func (p *memProxy) Shutdown()              {}
+func (p *memProxy) Size() uint32           { return 1 << 24 }
+func (p *memProxy) Clear()                 {}
+func (p *memProxy) Dump(uint32) []byte     { return nil }
 
-// busWindows: the flat 16 MiB memory is attached as three windows (lower half, upper half without its last 16
-// bytes, the last 16 bytes), each with its own handler that knows its range.
-var busWindows = [][2]uint32{{0, 0x7fffff}, {0x800000, 0xffffef}, {0xfffff0, 0xffffff}}
+// The flat 16 MiB memory is attached with 16 handlers; the handler of a 16-byte segment is chosen by the XOR of the five
+// hex digits of the segment number, so neighbouring segments, and segments whose numbers differ in one digit (a dropped
+// or changed bank nibble, a carry that was lost), always have different handlers.  An access that the bus routes with
+// another address than the one it carries arrives at a handler of another class, which records it.
+func segClass(a uint32) uint32 {
+	s := a >> 4
+	return (s ^ s>>4 ^ s>>8 ^ s>>12 ^ s>>16) & 15
+}
 
-// memWindow is the handler of one window for bus.Bus.
+// memWindow is the handler of the segments of one class for bus.Bus.
 type memWindow struct {
 	*memProxy
-	lo, hi uint32
+	class uint32
 }
 
 func (w memWindow) Read(a uint32) byte {
-	if a < w.lo || a > w.hi {
-		w.M.Misrouted(a, w.lo, w.hi)
+	if segClass(a) != w.class {
+		w.M.Misrouted(a, w.class)
 	}
 	return w.M.Read(a)
 }
 func (w memWindow) Write(a uint32, v byte) {
-	if a < w.lo || a > w.hi {
-		w.M.Misrouted(a, w.lo, w.hi)
+	if segClass(a) != w.class {
+		w.M.Misrouted(a, w.class)
 	}
 	w.M.Write(a, v)
 }
 
 func attachFlat(b *bus.Bus, p *memProxy) {
-	for _, w := range busWindows {
-		if err := b.Attach(memWindow{p, w[0], w[1]}, "flat", w[0], w[1]); err != nil {
+	var hs [16]memWindow
+	for c := range hs {
+		hs[c] = memWindow{p, uint32(c)}
+	}
+	for k := uint32(0); k < 1<<20; k++ {
+		if err := b.Attach(hs[segClass(k<<4)], "flat", k<<4, k<<4|15); err != nil {
 			panic(err)
 		}
 	}
 }
-func (p *memProxy) Shutdown()          {}
-func (p *memProxy) Size() uint32       { return 1 << 24 }
-func (p *memProxy) Clear()             {}
-func (p *memProxy) Dump(uint32) []byte { return nil }
 
 // CPU abstracts over the two interpreters.
 type CPU interface {
@@ -257,20 +266,27 @@ func NewAlt() *Alt {
 // another CPU's bus tables).
 func (p *Alt) Rebind() {
 	px := p.proxy
-	for _, w := range busWindows {
-		lo, hi := w[0], w[1]
-		p.C.Bus.AttachReader(lo, hi, func(a uint32) uint8 {
-			if a < lo || a > hi {
-				px.M.Misrouted(a, lo, hi)
+	var rds [16]func(a uint32) uint8
+	var wrs [16]func(a uint32, v uint8)
+	for c := uint32(0); c < 16; c++ {
+		c := c
+		rds[c] = func(a uint32) uint8 {
+			if segClass(a) != c {
+				px.M.Misrouted(a, c)
 			}
 			return px.M.Read(a)
-		})
-		p.C.Bus.AttachWriter(lo, hi, func(a uint32, v uint8) {
-			if a < lo || a > hi {
-				px.M.Misrouted(a, lo, hi)
+		}
+		wrs[c] = func(a uint32, v uint8) {
+			if segClass(a) != c {
+				px.M.Misrouted(a, c)
 			}
 			px.M.Write(a, v)
-		})
+		}
+	}
+	for k := uint32(0); k < 1<<20; k++ {
+		c := segClass(k << 4)
+		p.C.Bus.Read[k] = rds[c]
+		p.C.Bus.Write[k] = wrs[c]
 	}
 }
 
